@@ -17,7 +17,7 @@
 
 //! Utilities to assist with reading and writing Arrow data as Flight messages
 
-use crate::{FlightData, SchemaAsIpc};
+use crate::FlightData;
 use std::collections::HashMap;
 use std::sync::Arc;
 
@@ -86,13 +86,15 @@ pub fn batches_to_flight_data(
     batches: Vec<RecordBatch>,
 ) -> Result<Vec<FlightData>, ArrowError> {
     let options = IpcWriteOptions::default();
-    let schema_flight_data: FlightData = SchemaAsIpc::new(schema, &options).into();
-    let mut dictionaries = vec![];
     let mut flight_data = vec![];
 
     let data_gen = writer::IpcDataGenerator::default();
     let mut dictionary_tracker = writer::DictionaryTracker::new(false);
     let mut ipc_write_context = IpcWriteContext::default();
+    // encode the schema with the tracker used for the batches, so that dictionary ids are assigned
+    let schema_flight_data: FlightData = data_gen
+        .schema_to_bytes_with_dictionary_tracker(schema, &mut dictionary_tracker, &options)
+        .into();
 
     for batch in &batches {
         let (encoded_dictionaries, encoded_batch) = data_gen.encode(
@@ -102,14 +104,14 @@ pub fn batches_to_flight_data(
             &mut ipc_write_context,
         )?;
 
-        dictionaries.extend(encoded_dictionaries.into_iter().map(Into::into));
+        // the dictionaries of a batch go right before it: a later batch may replace them
+        flight_data.extend(encoded_dictionaries.into_iter().map(Into::into));
         flight_data.push(encoded_batch.into());
     }
 
-    let mut stream = Vec::with_capacity(1 + dictionaries.len() + flight_data.len());
+    let mut stream = Vec::with_capacity(1 + flight_data.len());
 
     stream.push(schema_flight_data);
-    stream.extend(dictionaries);
     stream.extend(flight_data);
     let flight_data = stream;
     Ok(flight_data)
